@@ -257,22 +257,25 @@ void TensorCopy(tensor* asrc, tensor** adst)
   }
   else{
     if(asrc->order != (*adst)->order){
-      /* resize  the order */
-      (*adst)->m = xrealloc((*adst)->m, sizeof(tensor*)*asrc->order);
+      /* resize  the order: release the matrices that go away, create the new ones */
+      for(k = asrc->order; k < (*adst)->order; k++){
+        if((*adst)->m[k] != NULL)
+          DelMatrix(&(*adst)->m[k]);
+      }
+      (*adst)->m = xrealloc((*adst)->m, sizeof(matrix*)*asrc->order);
+      for(k = (*adst)->order; k < asrc->order; k++){
+        (*adst)->m[k] = NULL;
+      }
+      (*adst)->order = asrc->order;
     }
 
     /*chek and resize the matrix for each order if is necessary */
     for(k = 0; k < asrc->order; k++){
-      if(asrc->m[k]->row != (*adst)->m[k]->row || asrc->m[k]->col != (*adst)->m[k]->col){
-
-        (*adst)->m[k]->row = asrc->m[k]->row;
-        (*adst)->m[k]->col = asrc->m[k]->col;
-
-        (*adst)->m[k]->data = xrealloc((*adst)->m[k]->data, sizeof(double*)*asrc->m[k]->row);
-
-        for(i = 0; i < asrc->m[k]->row; i++){
-          (*adst)->m[k]->data[i] = xrealloc((*adst)->m[k]->data[i], sizeof(double)*asrc->m[k]->col);
-        }
+      if((*adst)->m[k] == NULL){
+        NewMatrix(&((*adst)->m[k]), asrc->m[k]->row, asrc->m[k]->col);
+      }
+      else if(asrc->m[k]->row != (*adst)->m[k]->row || asrc->m[k]->col != (*adst)->m[k]->col){
+        ResizeMatrix((*adst)->m[k], asrc->m[k]->row, asrc->m[k]->col);
       }
     }
 
